@@ -1140,11 +1140,12 @@ pub fn run_filtered(ctx: &mut Ctx, filter: &'static str) {
             if a.class == b.class {
                 conform += 1;
             } else {
-                ctx.violation(crate::report::Violation {
-                    signature: format!("{filter}/e4/simnet-trace-differs-from-tcp"),
-                    what: format!("program {:?}: SimNet trace {} but real TCP nodes produce {}", s.program, a.class, b.class),
-                    replay: serde_json::json!({"engine": "E2", "scenario": tcp.name(), "config": tcp.config(), "schedule": [], "seed": e4.seed}),
-                });
+                // the mirror of transport/tcp/connection.rs is out of date (or SimNet is wrong): that is a defect of
+                // the machinery, not of litep2p — the TCP run below is judged by the property's own oracles either way
+                ctx.machinery_error(format!(
+                    "{filter}: SimNet's connection task no longer behaves like transport/tcp/connection.rs: program {:?}: SimNet trace {} but real TCP nodes produce {} (bring env/simnet.rs in line with the TCP file)",
+                    s.program, a.class, b.class
+                ));
             }
             let out = e4.explore(&tcp);
             e2::absorb(ctx, &format!("E4:{}", tcp.name()), out);
